@@ -29,6 +29,9 @@ pub enum Case {
         /// thread: one with ordinary text before an include of the other's output
         #[serde(default)]
         company: bool,
+        /// the first line is padded to this many more bytes (a long first line)
+        #[serde(default)]
+        pad_first: u16,
     },
     /// `text` escaped by one write directive, surrounded by stored tags
     Escape {
@@ -105,6 +108,7 @@ fn gen_case(c: &mut Choices) -> Case {
             trailing_newline,
             stale: c.weighted(&[4, 1, 2]) as u8,
             company: c.chance(1, 3),
+            pad_first: if c.chance(1, 4) { *c.pick(&[250u16, 254, 255, 256, 300, 1000, 8190, 8192, 9000]) } else { 0 },
         }
     } else {
         let n = 1 + c.below(5);
@@ -171,7 +175,12 @@ fn run_over_stale(su: &super::common::Setup, want: &[u8], stale: u8, trailing_ne
 
 pub fn check(case: &Case, st: &mut Stats) -> Check {
     match case {
-        Case::Identity { lines, crlf, flips, final_newline, trailing_newline, stale, company } => {
+        Case::Identity { lines, crlf, flips, final_newline, trailing_newline, stale, company, pad_first } => {
+            let mut lines = lines.clone();
+            if let Some(l0) = lines.first_mut() {
+                l0.push_str(&"x".repeat(*pad_first as usize));
+            }
+            let lines = &lines;
             let le = if *crlf { "\r\n" } else { "\n" };
             let other = if *crlf { "\n" } else { "\r\n" };
             let mut src = String::new();
@@ -322,7 +331,7 @@ pub fn check(case: &Case, st: &mut Stats) -> Check {
 fn reduce(case: &Case) -> Vec<Case> {
     let mut v = vec![];
     match case {
-        Case::Identity { lines, crlf, flips, final_newline, trailing_newline, stale, company } => {
+        Case::Identity { lines, crlf, flips, final_newline, trailing_newline, stale, company, pad_first } => {
             for i in 0..lines.len() {
                 let mut l = lines.clone();
                 l.remove(i);
@@ -330,7 +339,7 @@ fn reduce(case: &Case) -> Vec<Case> {
                 if i < f.len() {
                     f.remove(i);
                 }
-                v.push(Case::Identity { lines: l, crlf: *crlf, flips: f, final_newline: *final_newline, trailing_newline: *trailing_newline, stale: *stale, company: *company });
+                v.push(Case::Identity { lines: l, crlf: *crlf, flips: f, final_newline: *final_newline, trailing_newline: *trailing_newline, stale: *stale, company: *company, pad_first: *pad_first });
             }
         }
         Case::Escape { text, indent, prefix, tags, before, crlf, trailing_newline, stale } => {
@@ -362,7 +371,7 @@ impl Prop for C16 {
         PropMeta {
             id: "C16",
             level: "exploration",
-            rule: "two round trips over an alphabet of directive and tag look-alikes (TXTPP#run, -TXTPP#, TXTPP#include a.txt, tag names in use, prefixes, blanks, non-ASCII), LF/CRLF incl. mixed, with/without final newline, option on/off, from a fresh directory or over an older, longer output (build and --needed), alone or (identity) in one run with two other sources handled first by the same worker thread, one of which has ordinary text before an include of the other's output. Identity: lines made ordinary by construction (no line has the directive shape of the property statement) must come out joined by the file's line ending. Escape: any line sequence (first without leading blank, none with trailing blank) written as one write directive with generated indent and prefix, with 0-2 stored tags whose names may occur in the text, must come out line for line (indented), never executed, never tag-substituted; the stored tags are consumed by trailer lines. Non-trivial = text contains TXTPP or a tag name; distinct by (source, option).",
+            rule: "two round trips over an alphabet of directive and tag look-alikes (TXTPP#run, -TXTPP#, TXTPP#include a.txt, tag names in use, prefixes, blanks, non-ASCII), LF/CRLF incl. mixed, first lines of up to 9 KB, with/without final newline, option on/off, from a fresh directory or over an older, longer output (build and --needed), alone or (identity) in one run with two other sources handled first by the same worker thread, one of which has ordinary text before an include of the other's output. Identity: lines made ordinary by construction (no line has the directive shape of the property statement) must come out joined by the file's line ending. Escape: any line sequence (first without leading blank, none with trailing blank) written as one write directive with generated indent and prefix, with 0-2 stored tags whose names may occur in the text, must come out line for line (indented), never executed, never tag-substituted; the stored tags are consumed by trailer lines. Non-trivial = text contains TXTPP or a tag name; distinct by (source, option).",
             assumptions: vec!["expected bytes are computed by construction from the generated pieces, not by the reference model"],
             hang_is_violation: false,
             needs_cli: false,
